@@ -542,6 +542,51 @@ impl Interp {
         self.compare_module(&what)
     }
 
+    /// select_function_by_name: the first OpName whose string is `name` and whose target is the
+    /// result id of some function's OpFunction selects that function like select_function(Some(i))
+    pub fn select_function_by_name(&mut self, name: &str) -> R {
+        let what = format!("select_function_by_name({:?})", name);
+        let (pre_f, pre_b) = self.selection();
+        let mut want: Option<usize> = None;
+        'outer: for d in &self.model.debug_names {
+            if d.class.opname != "Name" {
+                continue;
+            }
+            if let (Some(dr::Operand::IdRef(t)), Some(dr::Operand::LiteralString(s))) = (d.operands.first(), d.operands.get(1)) {
+                if s == name {
+                    for (i, f) in self.model.functions.iter().enumerate() {
+                        if f.def.as_ref().and_then(|d| d.result_id) == Some(*t) {
+                            want = Some(i);
+                            break 'outer;
+                        }
+                    }
+                }
+            }
+        }
+        let r = no_panic("Builder::select_function_by_name", || self.b.as_mut().unwrap().select_function_by_name(name)).map_err(|f| self.wrap(f))?;
+        self.selection_calls += 1;
+        self.log.push(format!("{} [sel {:?}/{:?}] -> {:?}", what, pre_f, pre_b, r.as_ref().map_err(err_name)));
+        self.check_selection(&what)?;
+        let (post_f, post_b) = self.selection();
+        match want {
+            Some(i) => {
+                if r.is_err() || post_f != Some(i) {
+                    return Err(self.wrap(fail("select-by-name", "select_function_by_name", format!("{} -> {:?}, selection {:?}/{:?}, the named function is #{}", what, r.as_ref().map_err(err_name), post_f, post_b, i))));
+                }
+            }
+            None => {
+                if r.is_ok() {
+                    return Err(self.wrap(fail("select-by-name", "select_function_by_name:accepted", format!("{} succeeded although no function carries that name", what))));
+                }
+                self.errors_seen.push(err_name(r.as_ref().err().unwrap()));
+                if (post_f, post_b) != (pre_f, pre_b) {
+                    return Err(self.wrap(fail("failed-call-selection", "select_function_by_name", format!("{} failed but changed the selection", what))));
+                }
+            }
+        }
+        self.compare_module(&what)
+    }
+
     pub fn select_block(&mut self, idx: Option<usize>) -> R {
         let what = format!("select_block({:?})", idx);
         let (pre_f, pre_b) = self.selection();
@@ -734,6 +779,21 @@ fn c12_step(cs: &mut Cs, it: &mut Interp, p: &Pools) -> R {
     Ok(())
 }
 
+/// naming functions and selecting them by name (kept out of `c12_step` so that stored streams
+/// keep their meaning)
+fn c12_name_step(cs: &mut Cs, it: &mut Interp) -> R {
+    const NAMES: [&str; 4] = ["f0", "f1", "main", ""];
+    if cs.bool() {
+        // OpName for a function (or, rarely, some other id)
+        let fids: Vec<u32> = it.model.functions.iter().filter_map(|f| f.def.as_ref().and_then(|d| d.result_id)).collect();
+        let target = if !fids.is_empty() && cs.below(5) != 0 { fids[cs.below(fids.len())] } else { 1 + cs.below(6) as u32 };
+        let name = NAMES[cs.below(NAMES.len())];
+        it.call_with(method("name"), vec![ArgVal::Word(target), ArgVal::Str(name.to_string())], None)
+    } else {
+        it.select_function_by_name(NAMES[cs.below(NAMES.len())])
+    }
+}
+
 fn sub_c12_histories(input: &[u8], st: &mut Stats) -> R {
     let mut cs = Cs::new(input);
     let p = pools();
@@ -754,6 +814,29 @@ fn sub_c12_histories(input: &[u8], st: &mut Stats) -> R {
     }
     st.add("builder_calls", it.ncalls as u64);
     st.sample(|| it.render());
+    Ok(())
+}
+
+/// histories of the C12 mix in which functions are also named (OpName) and selected by name
+fn sub_c12_named(input: &[u8], st: &mut Stats) -> R {
+    let mut cs = Cs::new(input);
+    let p = pools();
+    let mut it = Interp::new();
+    let n = cs.below(61);
+    for _ in 0..n {
+        if cs.below(4) == 0 {
+            c12_name_step(&mut cs, &mut it)?;
+        } else {
+            c12_step(&mut cs, &mut it, p)?;
+        }
+    }
+    for e in &it.errors_seen {
+        st.count(&format!("error_{}", e));
+    }
+    if it.methods_called.contains(&"name") && it.selection_calls > 0 {
+        st.nontrivial(hash_str(&it.render()));
+    }
+    st.add("builder_calls", it.ncalls as u64);
     Ok(())
 }
 
@@ -895,6 +978,7 @@ pub const C12_SUBS: &[Sub] = &[
     Sub { name: "fixed-histories", f: sub_c12_fixed },
     Sub { name: "histories", f: sub_c12_histories },
     Sub { name: "long-runs", f: sub_c12_long },
+    Sub { name: "named-histories", f: sub_c12_named },
 ];
 
 pub fn c12_run(ctx: &Ctx) {
@@ -902,6 +986,7 @@ pub fn c12_run(ctx: &Ctx) {
     drive_enum(ctx, &C12_SUBS[0], 3);
     drive_random(ctx, &C12_SUBS[1], ctx.n(30_000, 15_000_000), 1500);
     drive_random(ctx, &C12_SUBS[2], ctx.n(250, 100_000), 24_000);
+    drive_random(ctx, &C12_SUBS[3], ctx.n(15_000, 7_000_000), 1500);
     if !ctx.quick() && !ctx.failed() {
         crate::fuzzing::drive_fuzz(ctx, "builder", 200_000);
     }
@@ -911,7 +996,7 @@ pub fn c12_finish(ctx: &Ctx) -> i32 {
     crate::engine::finish(
         ctx,
         Finish {
-            rule: "cases: call histories of 0-60 calls (and, in `long-runs`, 260-1160 calls dominated by one kind of call: parameters of one function, instructions of one block, blocks, functions, module-level instructions, types, ids) over begin/end function, begin block, every terminator method, every block-instruction method (append and insert_* with offsets within the selected block), function_parameter, module-level and type methods, variable/undef/line/no_line, select_function/select_block with in- and out-of-range indices, pop_instruction, id(); arguments planned from the grammar. Oracle (model R4): catch_unwind around every call; selection observed before/after every call and checked against the validity invariant; success/failure of each call decided by the observed pre-state as the statement says; after every call a full structural comparison of module_ref() with the model (Err => unchanged, Ok => exactly the modelled insertion/removal). non-trivial = history with a selection call or an error return and >= 2 functions; distinct = hash of the rendered history.",
+            rule: "cases: call histories of 0-60 calls (and, in `long-runs`, 260-1160 calls dominated by one kind of call: parameters of one function, instructions of one block, blocks, functions, module-level instructions, types, ids) over begin/end function, begin block, every terminator method, every block-instruction method (append and insert_* with offsets within the selected block), function_parameter, module-level and type methods, variable/undef/line/no_line, select_function/select_block with in- and out-of-range indices, OpName + select_function_by_name (`named-histories`), pop_instruction, id(); arguments planned from the grammar. Oracle (model R4): catch_unwind around every call; selection observed before/after every call and checked against the validity invariant; success/failure of each call decided by the observed pre-state as the statement says; after every call a full structural comparison of module_ref() with the model (Err => unchanged, Ok => exactly the modelled insertion/removal). non-trivial = history with a selection call or an error return and >= 2 functions; distinct = hash of the rendered history.",
             assumptions: vec!["InsertPoint offsets beyond the selected block's length are outside the stated precondition and never generated".into()],
             trusted_base: vec!["builder model R4".into(), "generated call sites (build.rs, syn)".into(), "golden grammar".into()],
         },
@@ -1499,6 +1584,25 @@ fn sub_c06_histories(input: &[u8], st: &mut Stats) -> R {
     roundtrip(it, st)
 }
 
+/// a complete history, module(), Builder::new_from_module(module), a second complete history on
+/// top: the final module survives assemble-then-load, its bound is above every id of both phases
+fn sub_c06_continued(input: &[u8], st: &mut Stats) -> R {
+    let mut cs = Cs::new(input);
+    let mut it = Interp::new();
+    complete_history(&mut cs, &mut it, st, None)?;
+    let rounds = 1 + cs.below(2);
+    for _ in 0..rounds {
+        let (m, prev) = it.finish()?;
+        let all_ids = prev.env.ids.clone();
+        it = Interp::continue_from(prev, m, None)?;
+        it.env.ids = all_ids;
+        it.version = None;
+        complete_history(&mut cs, &mut it, st, None)?;
+    }
+    st.count("continued_complete_histories");
+    roundtrip(it, st)
+}
+
 /// every instruction-emitting method in a minimal complete history, distinct ids
 fn sub_c06_method_sweep(input: &[u8], st: &mut Stats) -> R {
     let i = idx(input) as usize;
@@ -1549,6 +1653,7 @@ pub const C06_SUBS: &[Sub] = &[
     Sub { name: "method-sweep", f: sub_c06_method_sweep },
     Sub { name: "histories", f: sub_c06_histories },
     Sub { name: "parked-histories", f: sub_c06_parked },
+    Sub { name: "continued-histories", f: sub_c06_continued },
 ];
 
 pub fn c06_run(ctx: &Ctx) {
@@ -1569,6 +1674,7 @@ pub fn c06_run(ctx: &Ctx) {
     drive_enum(ctx, &C06_SUBS[1], pools().emitting.len() as u64 * 3);
     drive_random(ctx, &C06_SUBS[2], ctx.n(20_000, 10_000_000), 2500);
     drive_random(ctx, &C06_SUBS[3], ctx.n(8_000, 4_000_000), 2500);
+    drive_random(ctx, &C06_SUBS[4], ctx.n(4_000, 2_000_000), 4000);
     if !ctx.quick() && !ctx.failed() {
         crate::fuzzing::drive_fuzz(ctx, "builder", 200000);
     }
@@ -1578,7 +1684,7 @@ pub fn c06_finish(ctx: &Ctx) -> i32 {
     crate::engine::finish(
         ctx,
         Finish {
-            rule: "cases: (a) per-method sweep: every instruction-emitting Builder method (1153, call sites generated from the working tree by build.rs) x3 in the smallest complete history; (b) complete histories: optional set_version, ids from b.id(), int/float types, module-level/type/global calls, 0-3 functions x 0-3 blocks of block instructions (append and insert_*), each block ended by a terminator method, each function ended, module-level calls interleaved anywhere; arguments grammar-conforming (enumerant parameters via additional_params, optionals as trailing run, typed literals of the declared width). (c) parked histories: 1-3 functions built interleaved - a function or block is deselected (select_function(None) / select_block(None)) at random points, other functions are begun or resumed, and it is later re-selected (select_function(Some(i)) + select_block(Some(j))) and completed. Oracle: per call, the emitted instruction (found where the model R4 places it) equals the method's opcode + arguments in grammar order; at the end load_words(module().assemble()) is Ok and field-wise equal to the built module; version = the one set on the builder; bound = next id > every id used. non-trivial = history with >= 1 function, >= 2 blocks, >= 6 calls (sweep: the swept method was called); distinct = hash of the assembled words.",
+            rule: "cases: (a) per-method sweep: every instruction-emitting Builder method (1153, call sites generated from the working tree by build.rs) x3 in the smallest complete history; (b) complete histories: optional set_version, ids from b.id(), int/float types, module-level/type/global calls, 0-3 functions x 0-3 blocks of block instructions (append and insert_*), each block ended by a terminator method, each function ended, module-level calls interleaved anywhere; arguments grammar-conforming (enumerant parameters via additional_params, optionals as trailing run, typed literals of the declared width). (c') continued histories: a complete history, module(), new_from_module, another complete history; (c) parked histories: 1-3 functions built interleaved - a function or block is deselected (select_function(None) / select_block(None)) at random points, other functions are begun or resumed, and it is later re-selected (select_function(Some(i)) + select_block(Some(j))) and completed. Oracle: per call, the emitted instruction (found where the model R4 places it) equals the method's opcode + arguments in grammar order; at the end load_words(module().assemble()) is Ok and field-wise equal to the built module; version = the one set on the builder; bound = next id > every id used. non-trivial = history with >= 1 function, >= 2 blocks, >= 6 calls (sweep: the swept method was called); distinct = hash of the assembled words.",
             assumptions: vec![
                 "excluded: begin_block_no_label (label-less block cannot be expressed in a binary); insert_into_block / insert_types_global_values with caller-made instructions; spec_constant_op only with opcodes whose embedded operand list can be empty; execution_mode / execution_mode_id only with modes whose parameters fit the [u32] signature; with several parameterised masks in one call only the last may carry parameters (single additional_params argument)".into(),
                 "histories whose assembled words the reference parser R1 does not accept are generator errors and skipped (counted as skipped_arguments_not_conforming)".into(),
